@@ -3,4 +3,4 @@ META = dict(trusted_base=COMMON_TB, assumptions=COMMON_ASSUME)
 
 
 def items(tier):
-    return contract_items("C07")
+    return contract_items("C07", tier) + [dict(kind="lemma", spec="lemmas.l_c07:length_111")]
